@@ -32,7 +32,7 @@ func labelDec(in []byte) (rec map[string]any, l *rfc1035label.Labels) {
 	if err != nil {
 		return rec, nil
 	}
-	return map[string]any{"ok": true, "names": namesJSON(l.Labels)}, l
+	return map[string]any{"ok": true, "names": namesJSON(l.Labels), "reenc": B(l.ToBytes())}, l
 }
 
 func randLabel(rng *rand.Rand, maxLen int) string {
@@ -128,8 +128,19 @@ func genC19(o *Out, rng *rand.Rand, tier string) {
 		}
 	}
 	rec(nil)
+	// a second small scope whose alphabet has the byte '.' (legal inside a label on the wire)
+	alpha = []byte{0, 1, 2, '.', 'a', 0xC0}
+	maxLen--
+	rec(nil)
+	maxLen++
 	for i := 0; i < n; i++ {
-		emitDec(randLabelWire(rng), "random-wire")
+		w := randLabelWire(rng)
+		if i%5 == 0 && len(w) > 2 { // '.' bytes inside labels
+			for k := 1 + rng.Intn(2); k > 0; k-- {
+				w[1+rng.Intn(len(w)-1)] = '.'
+			}
+		}
+		emitDec(w, "random-wire")
 	}
 	// compression pointers at offsets >= 256 (two-byte pointer arithmetic)
 	for i := 0; i < n/10; i++ {
